@@ -110,6 +110,51 @@ theorem C10_label_is_applied_index (ops : List Nat) (n : Node) (l : SnapLabel) (
       simp only [Option.some.injEq, Prod.mk.injEq] at h
       rw [← h.1]; exact (hl _ e hg).1
 
+/-! ### "Consequently": restore an exact snapshot, replay the following entries -/
+
+/-- the apply loop, `k` times -/
+def NodeF.applyN (x : NodeF) (now : Nat) : Nat → NodeF
+  | 0 => x
+  | k + 1 => (x.apply now).applyN now k
+
+theorem apply_node (x : NodeF) (now : Nat) : (x.apply now).node = (x.node.applyStep now).1 := by
+  unfold NodeF.apply
+  simp only
+  split <;> rfl
+
+theorem logAgrees_apply (ops : List Nat) (x : NodeF) (now : Nat) (hl : LogAgrees ops x.node) :
+    LogAgrees ops (x.apply now).node := by
+  unfold LogAgrees at *
+  rw [apply_node, (applyStep_spec x.node now).1]
+  exact hl
+
+/-- exactness survives any number of rounds of the apply loop -/
+theorem C10_exact_after_any_number_of_applies (ops : List Nat) (hs : ops.Pairwise (· < ·)) (now : Nat) :
+    ∀ (k : Nat) (x : NodeF), LogAgrees ops x.node → FsmExact ops x → FsmExact ops (x.applyN now k)
+  | 0, x, _, he => he
+  | k + 1, x, hl, he =>
+    C10_exact_after_any_number_of_applies ops hs now k (x.apply now) (logAgrees_apply ops x now hl)
+      (C10_apply_keeps_exact ops hs x now hl he)
+
+/-- a state machine restored from a snapshot: content and label go in together (what
+    `InstallSnapshot` and a restart do) -/
+def NodeF.restored (n : Node) (label : Nat) (content : List Nat) : NodeF :=
+  { node := { n with lastApplied := label }, fsm := content }
+
+/-- **Restore + replay = apply everything once, in order.** `y` starts from ANY exact snapshot
+    (content = the operations up to its label) on any node whose log agrees with the committed
+    sequence, and runs the apply loop any number of times; `x` is any replica that is exact (e.g.
+    one that applied every entry from the beginning). Whenever the two have applied the same
+    index they hold the same state: nothing was applied twice, nothing skipped. -/
+theorem C10_restore_then_replay_equals_apply_all (ops : List Nat) (hs : ops.Pairwise (· < ·)) (now k : Nat)
+    (n : Node) (label : Nat) (hl : LogAgrees ops n) (x : NodeF) (hx : FsmExact ops x)
+    (hsame : x.node.lastApplied = ((NodeF.restored n label (ops.filter (· ≤ label))).applyN now k).node.lastApplied) :
+    ((NodeF.restored n label (ops.filter (· ≤ label))).applyN now k).fsm = x.fsm := by
+  have hy : FsmExact ops ((NodeF.restored n label (ops.filter (· ≤ label))).applyN now k) :=
+    C10_exact_after_any_number_of_applies ops hs now k _ (by unfold NodeF.restored LogAgrees at *; exact hl) (by unfold NodeF.restored FsmExact; rfl)
+  unfold FsmExact at hy hx
+  rw [hy, hx, hsame]
+
 /-- the state used by the S9 witness: a sole voter that has applied index 3 (an operation),
     with index 4 (an operation) committed but not yet applied -/
 def exS9 : NodeF :=
@@ -124,6 +169,11 @@ theorem C10_counterexample_apply_between_label_and_content :
     (exS9.node.snapshotBegin).map (·.1.index) = some 3 ∧
     ((exS9.apply 0).snapshotContent) = [3, 4] ∧ [3, 4] ≠ [3, 4].filter (· ≤ 3) := by
   decide
+
+/-- non-vacuity of the restore + replay theorem: the node of the S9 example restored from the exact
+    snapshot labelled 3, one round of the apply loop: operation 4 is applied, once -/
+example : ((NodeF.restored exS9.node 3 ([3, 4].filter (· ≤ 3))).applyN 0 1).fsm = [3, 4] ∧
+    ((NodeF.restored exS9.node 3 ([3, 4].filter (· ≤ 3))).applyN 0 1).node.lastApplied = 4 := by decide
 
 /-! ## Cluster level: what an exact snapshot labelled `i` must contain is the same for every
     node and at every time
